@@ -72,6 +72,10 @@ fn life_jobs(props: &[&'static str], thorough: bool, read_faults: bool) -> Vec<J
         c.max_faults = 2;
         v.push(w(rf(c), props, 3, true));
     }
+    v.push(w(scen::s_park(false), props, if thorough { 3 } else { 2 }, true));
+    if thorough {
+        v.push(w(scen::s_park(true), props, 2, true));
+    }
     v.push(w(rf(scen::s_overlap()), props, if thorough { 4 } else { 2 }, true));
     v.push(w(rf(scen::s_life_xpay()), props, if thorough { 3 } else { 2 }, true));
     v.push(w(rf(scen::s_life_amountless()), props, if thorough { 3 } else { 2 }, true));
